@@ -19,11 +19,15 @@ LEVEL_TEXT = ("Bounded contract on Pipeline.map(..., run_folder=F): for generate
               "(file_array, dict and shared_memory_dict with persist_memory=True, per-output mixes) the postcondition "
               "'load_outputs / RunInfo.load / load_xarray_dataset yield exactly what the run produced or was given' is "
               "evaluated (i) in process, (ii) in a fresh interpreter started after the parent dropped the results and "
-              "its manager processes, (iii) twice. Serialisation (cloudpickle/json) and the file system are outside "
-              "the proof rung, hence 'exploration'.")
+              "its manager processes, (iii) twice. Proved part (pyvc): FileArray._key_to_file - an element dumped "
+              "under the unravelled key of linear index l lands in the file of l (row-major; lemma L4 ravel o unravel "
+              "= id, by induction), the file a later process looks at for element l. Serialisation (cloudpickle/json) "
+              "and the file system are outside the proof rung, so the property is decided on the bounded rung: "
+              "'exploration'.")
 LEVEL_NOTE = ("Bounds: programs of rtc.progs.gen_map_program (1..3 functions, rank<=2, sizes 1..3). Trusted: cloudpickle, "
               "json, the reference denotation. The fresh interpreter is /verif/.venv/bin/python with the same sys.path.")
-TECHNIQUE = "bounded contract checking incl. a fresh-interpreter postcondition (no deductive part)"
+TECHNIQUE = ("bounded contract checking incl. a fresh-interpreter postcondition; FileArray._key_to_file (element -> file) "
+             "discharged by z3 with lemma L4")
 EXPLANATION = LEVEL_TEXT
 RULE = ("program x storage configuration; distinct = distinct (program, storage); non-trivial = some output array has "
         ">=2 elements")
@@ -66,11 +70,16 @@ print("RESULT" + json.dumps({{"outputs": res, "info": info}}))
 
 
 def registry():
-    return {}
+    from contracts import filearray, mapspec
+    allc = filearray.ALL + mapspec.ALL
+    return {**{c.short: c for c in allc}, **{c.name: c for c in allc}}
 
 
 def proof_items():
-    return []
+    from contracts import filearray
+    from vf.driver import ProofItem
+    # where an element lives on disk: the file of its row-major linear index (what a later process reads)
+    return [ProofItem(filearray.key_to_file, gen=filearray.gen, call=filearray.call)]
 
 
 def _cases(tier, rng):
